@@ -288,8 +288,9 @@ def run(task):
             base_struct = struct(o0.tree)
             base_lines = [l.strip() for l in text_of(o0.tree).split("\n") if l.strip()]
             for gi in range(0, len(fl) + 1, 3):
-                for fi, form in enumerate(FORMS[:8]):
+                for fi, form, lead in [(fi, form, lead) for fi, form in enumerate(FORMS[:8]) for lead in (("", " ", "  ", "    ") if fi < 3 else ("", "   "))]:
                     ls, pl = render_directive(form, "plain")
+                    ls = [lead + ls[0]] + ls[1:]  # blanks before '#' (cpp allows them)
                     src = "\n".join(fl[:gi] + ls + fl[gi:]) + "\n"
                     res.evals += 1
                     res.transitions += 1
